@@ -516,9 +516,30 @@ def render (o : Out) : String :=
   | .ok v args => "ok " ++ v.show ++ String.join ((resolveRefs args).map (fun a => " | " ++ a.show))
   | .err args => "err" ++ String.join ((resolveRefs args).map (fun a => " | " ++ a.show))
 
+/-- all byte strings of length `n` over the alphabet {a, b} -/
+def allStrings : Nat → List (List Nat)
+  | 0 => [[]]
+  | n + 1 => (allStrings n).flatMap (fun s => [97 :: s, 98 :: s])
+
+/-- bounded-exhaustive check KMP mirror = naive definitions (find, find-all, replace-all, split) -/
+def kmpExhaustive (plen tlen : Nat) : String := Id.run do
+  let mut count := 0
+  for pl in List.range plen do
+    for p in allStrings (pl + 1) do
+      for tl in List.range (tlen + 1) do
+        for t in allStrings tl do
+          for st in List.range (tl + 2) do
+            count := count + 1
+            if Kmp.find p t st != findFrom p t st then return s!"mismatch find {hexOfBytes p} {hexOfBytes t} {st}"
+            if Kmp.findAll p t st != findAll p t st then return s!"mismatch find-all {hexOfBytes p} {hexOfBytes t} {st}"
+            if some (Kmp.replaceAll p [120] t st) != replaceAll p [120] t st then return s!"mismatch replace-all {hexOfBytes p} {hexOfBytes t} {st}"
+            if some (Kmp.split p t st 3) != split p t st 3 then return s!"mismatch split {hexOfBytes p} {hexOfBytes t} {st}"
+  return s!"ok {count}"
+
 def step (_ : Unit) (toks : List String) : Unit × String :=
   match toks with
   | [] => ((), "bad-op")
+  | ["kmp-exhaustive", a, b] => ((), kmpExhaustive a.toNat! b.toNat!)
   | f :: rest =>
     match parseArgs rest [] with
     | none => ((), "bad-op")
